@@ -72,6 +72,10 @@ StrLaws(i, r) ==
                                                         /\ StrEq(r.at3, u))>>,
      <<"insert-composition", IF m <= ls THEN AllS(r, {"ins", "insl", "insr"}) /\ r.ins.s = r.insl.s \o t \o r.insr.s
                              ELSE StrEq(r.ins, s)>>,
+     <<"huge-count-saturates", AllS(r, {"left_h", "right_h", "sub3_h", "ins_h"})   \* a count beyond the string length acts like the length
+                               /\ r.left_h.s = s /\ r.right_h.s = s
+                               /\ r.sub3_h.s = (IF m <= ls THEN Drop(s, m - 1) ELSE <<>>)
+                               /\ r.ins_h.s = (IF m <= ls THEN Take(s, m - 1) \o t ELSE s)>>,
      <<"lpad", (u # <<>> \/ n <= ls) =>
                  /\ IsS(r.lpad) /\ Len(r.lpad.s) = n /\ IntEq(r.cl_lpad, n)
                  /\ (n <= ls => r.lpad.s = Take(s, n))
